@@ -100,19 +100,22 @@ class Ctx(object):
         records, stats, errors, per = parallel.run_all(self.it, self.explorations,
                                                        cross=(self.tier == 'thorough'))
         self.explorations = []
+        for rec in records:
+            rec.phase = getattr(self, 'phase', 0)
+            rec.phase_pid = self.pid
         self.obligations.extend(records)
         by_result = {}
         for rec in records:
             pass
-        earlier = getattr(self, 'earlier_explore_stats', None)
-        if earlier:
-            # a property that explores on two interpreters (C12): the counts add up
-            stats = dict(stats)
-            for k, v in earlier.items():
-                if isinstance(v, (int, float)) and not isinstance(v, bool):
-                    stats[k] = stats.get(k, 0) + v
-            self.earlier_explore_stats = None
-        self.explore_stats = stats
+        # a property may explore in several phases (its own interpreters, then its dependencies'): counts add up
+        acc = getattr(self, '_acc_stats', {})
+        for k, v in stats.items():
+            if isinstance(v, (int, float)) and not isinstance(v, bool):
+                acc[k] = acc.get(k, 0) + v
+            else:
+                acc[k] = v
+        self._acc_stats = acc
+        self.explore_stats = dict(acc)
         if errors:
             # a refuted obligation found on another path stands on its own: it is reported (exit 1);
             # without one, paths outside the supported subset mean "cannot verify" (exit 3)
